@@ -18,6 +18,8 @@ import (
 	"sort"
 	"strings"
 	"sync"
+	"sync/atomic"
+	"time"
 
 	dbm "github.com/33cn/chain33/common/db"
 	clog "github.com/33cn/chain33/common/log"
@@ -593,6 +595,27 @@ func runProg(p *prog, tmp string, st *stats) (f *failure) {
 	return nil
 }
 
+// runProgT runs a program under a watchdog (a program that makes the real code spin is abandoned, its goroutine leaks).
+func runProgT(p *prog, tmp string, st *stats, d time.Duration) (f *failure, timedOut bool) {
+	type res struct {
+		f  *failure
+		st stats
+	}
+	ch := make(chan res, 1)
+	go func() {
+		var s stats
+		g := runProg(p, tmp, &s)
+		ch <- res{g, s}
+	}()
+	select {
+	case r := <-ch:
+		*st = r.st
+		return r.f, false
+	case <-time.After(d):
+		return nil, true
+	}
+}
+
 // ---------------------------------------------------------------------------------------------
 // generator
 
@@ -731,7 +754,7 @@ func minimise(p *prog, f *failure, tmp string) (*prog, *failure, int) {
 		}
 		runs++
 		var st stats
-		g := runProg(cloneProg(q), tmp, &st)
+		g, _ := runProgT(cloneProg(q), tmp, &st, 5*time.Second)
 		if g != nil && kindClass(g.Kind) == kindClass(f.Kind) {
 			cur, curF = q, g
 			return true
@@ -914,6 +937,7 @@ func run(c *lib.Ctx) {
 		jobs = append(jobs, job{"empty", len(jobs), i})
 	}
 	var mu sync.Mutex
+	var hung int32
 	reported := map[string]int{}
 	lib.Parallel(len(jobs), runtime.NumCPU(), func(j int) {
 		jb := jobs[j]
@@ -922,8 +946,17 @@ func run(c *lib.Ctx) {
 		}
 		rng := c.CaseRng("chain-"+jb.stratum, jb.local)
 		p := genProg(rng, jb.stratum, c.Quick())
+		if atomic.LoadInt32(&hung) >= 3 {
+			c.Count("cases_skipped_after_watchdog", 1)
+			return
+		}
 		var st stats
-		f := runProg(cloneProg(p), c.Tmp, &st)
+		f, timedOut := runProgT(cloneProg(p), c.Tmp, &st, 60*time.Second)
+		if timedOut {
+			atomic.AddInt32(&hung, 1)
+			c.Inconclusive("watchdog: case %d (%s) did not finish within 60s: %s", jb.idx, jb.stratum, lib.JSON(p))
+			return
+		}
 		c.Count("cases_"+jb.stratum, 1)
 		c.Count("backend_"+p.Backend, 1)
 		c.Count("reads", st.reads)
